@@ -233,6 +233,40 @@ static int interleaved_ok(const Program &p, long budget) {
     }
     if (digest_vm(orig, k) != want) return 0;
   }
+  {
+    // ... and so is a machine that RECEIVES a paused machine by move assignment, copy assignment, swap, or by the
+    // element shifts of vector::erase, while the object it came from is reused for a fresh session or goes away
+    VM session(p), other(p);
+    long k = 0;
+    while (k < n / 2 && !session.isDone()) {
+      session.executeSingle();
+      k++;
+    }
+    VM slot(p), slot2(p);
+    slot2 = session;               // copy assignment
+    slot = std::move(session);     // move assignment
+    session = VM(p);               // the old object starts a fresh session ...
+    session.executeSingle();
+    std::swap(slot2, other);       // ... and the copy changes places with a fresh machine
+    std::vector<VM> shelf;
+    shelf.push_back(VM(p));
+    shelf.push_back(slot);
+    shelf.push_back(other);
+    shelf.erase(shelf.begin());    // the two paused machines are move-assigned one place down
+    slot.reset();                  // what was copied from must not matter any more
+    VM paused(p);
+    for (long j = 0; j < k; j++) paused.executeSingle();
+    unsigned long long want_paused = digest_vm(paused, 0);
+    for (auto &c : shelf) {
+      long kk = k;
+      if (digest_vm(c, 0) != want_paused) return 0;   // what the paused machine shows before it runs on
+      while (kk < budget && !c.isDone()) {
+        c.executeSingle();
+        kk++;
+      }
+      if (digest_vm(c, kk) != want) return 0;
+    }
+  }
   for (int i = 0; i < 6; i++) pool.push_back(VM(p));   // reallocation moves the machines
   for (int which = 0; which < 2; which++) {
     VM &c = pool[which];
